@@ -372,6 +372,64 @@ def scen_race(ctx, exp, name, plan):
     return procs
 
 
+def scen_cold_start(ctx, exp, trials, nproc):
+    """Cold cache: the module directory does not exist yet and `nproc` fresh interpreters make their first request at the
+    same instant.  Each is killed at the 'builddir' fault point (right after it has created its private build directory), so
+    the scenario costs no compilation; a process that fails BEFORE that point was broken by its competitors."""
+    for t in range(trials):
+        cache = Path(ctx.scratch) / ('cold_%d' % t)
+        cache.mkdir()
+        start = time.time() + 4.0 + 0.15 * nproc
+        kids = []
+        for i in range(nproc):
+            c = Child.__new__(Child)
+            c.cache, c.forms = cache, ['mass']
+            env = dict(os.environ)
+            env.update(XDG_CACHE_HOME=str(cache), PYTHONPATH=str(REPO), PYIGA_VERIF='1', PYTHONHASHSEED='0',
+                       OMP_NUM_THREADS='1', PYIGA_VERIF_COMPILE_FAULT='builddir', C20_START_AT=repr(start))
+            env.pop('PYIGA_VERIF_TRACE', None)
+            c.resfile = cache / ('result_cold_%d_%d.json' % (t, i))
+            env['C20_RESULT'] = str(c.resfile)
+            c.p = subprocess.Popen([PY, CHILD, 'mass'], env=env, cwd=str(cache), stdout=subprocess.DEVNULL,
+                                   stderr=subprocess.PIPE, start_new_session=True)
+            c.stderr = b''
+            kids.append(c)
+        rcs = [k.wait(timeout=300) for k in kids]
+        ctx.case(('cold-start', t), nontrivial=sum(1 for rc in rcs if rc == -signal.SIGKILL) >= 2,
+                 sample={'scenario': 'cold-start race', 'processes': nproc, 'returncodes': [str(r) for r in rcs]} if t == 0 else None)
+        for i, (k, rc) in enumerate(zip(kids, rcs)):
+            if rc in (-signal.SIGKILL, 0, 'timeout'):
+                continue
+            judge(ctx, exp, k, rc, 'race=cold-start (module directory does not exist yet, %d first requests at once)' % nproc,
+                  {'trial': t, 'proc': i, 'returncodes': [str(r) for r in rcs]})
+            return
+
+
+def scen_clear_cache(ctx, exp):
+    """CompileCache.ClearCache: one live interpreter compiles a form, the user clears the cache, the same interpreter
+    compiles another form; then a fresh interpreter asks for both."""
+    cache = Path(ctx.scratch) / 'clearcache'
+    cache.mkdir()
+    c = Child.__new__(Child)
+    c.cache, c.forms = cache, ['mass3', 'mass5']
+    env = dict(os.environ)
+    env.update(XDG_CACHE_HOME=str(cache), PYTHONPATH=str(REPO), PYIGA_VERIF='1', PYTHONHASHSEED='0', OMP_NUM_THREADS='1',
+               C20_CLEAR_BETWEEN='1')
+    env.pop('PYIGA_VERIF_COMPILE_FAULT', None)
+    env.pop('PYIGA_VERIF_TRACE', None)
+    c.resfile = cache.parent / 'result_clearcache.json'
+    env['C20_RESULT'] = str(c.resfile)
+    c.p = subprocess.Popen([PY, CHILD, 'mass3', 'mass5'], env=env, cwd=str(cache.parent), stdout=subprocess.DEVNULL,
+                           stderr=subprocess.PIPE, start_new_session=True)
+    c.stderr = b''
+    rc = c.wait()
+    ctx.case('clear-cache', nontrivial=True)
+    if not judge(ctx, exp, c, rc, 'after-clear-cache same-interpreter', {}):
+        return
+    c2 = Child(cache, ['mass3', 'mass5'], tag='cc2')
+    judge(ctx, exp, c2, c2.wait(), 'after-clear-cache fresh-interpreter', {})
+
+
 def scen_aged_race(ctx, exp):
     """The protocol may not depend on how long a build takes: while process A is in its compiler phase every file
     and directory in the cache is back-dated by an hour (as if the build had been running that long), then B
@@ -462,6 +520,7 @@ def run(ctx):
     if shutil.which('inotifywait') is None:
         raise MachineryError('inotifywait missing')
     exp = expected()
+    scen_cold_start(ctx, exp, 6 if not ctx.thorough else 20, 8)      # before the heavy scenarios load the machine
 
     # design checks
     base = dict(MaxCrash=2, MaxReq=1, Legacy=False)
@@ -514,6 +573,7 @@ def run(ctx):
         for k in range(2):
             futs.append(pool.submit(scen_random_kill, ctx, exp, k, 7.0))
     futs.append(pool.submit(scen_aged_race, ctx, exp))
+    futs.append(pool.submit(scen_clear_cache, ctx, exp))
     rf = [pool.submit(scen_race, ctx, exp, nm, plan) for nm, plan in races]
     for f in futs:
         f.result()
